@@ -231,6 +231,8 @@ pub fn directed_specs() -> Vec<GSpec> {
     // zero-size data added in the same step as the sized datum whose offset they end up sharing
     push("zst-same-step", 3, vec![a(0, "a"), cl(Simple), a(2, "value"), a(23, "z"), a(25, "zd"), cl(Simple), rm(0), a(19, "t"), a(24, "m"), a(1, "w"), cl(Simple)]);
     push("zst-same-step-first", 1, vec![a(0, "a"), a(19, "t"), a(25, "zd"), a(23, "z"), a(3, "n"), a(24, "m"), cl(Simple), a(5, "tri"), a(25, "zd2"), cl(Simple)]);
+    // a datum replaced, in one step, by a datum of another type under the same name
+    push("same-name-replaced", 3, vec![a(19, "payload"), u(2, "n"), a(15, "s"), cl(Simple), rm(0), a(3, "payload"), cl(Simple), rm(2), a(21, "s"), rm(3), a(22, "payload"), cl(Simple)]);
     // removal-only steps down to an empty variant, then data again
     push("removal-only-to-empty", 3, vec![a(15, "s"), a(19, "t"), a(2, "n"), a(21, "big"), cl(Simple), rm(2), rm(3), cl(Simple), rm(0), rm(1), cl(Simple), a(20, "pair"), u(1, "w"), cl(Simple)]);
     // empty first variant
@@ -310,7 +312,11 @@ pub fn random_spec(rng: &mut Rng, index: usize) -> GSpec {
                 uninit = true;
             }
             // names: mostly fresh, sometimes one that an earlier variant used
-            let name = if !free_names.is_empty() && rng.chance(1, 4) {
+            let name = if !removed_now.is_empty() && rng.chance(1, 3) {
+                // the name of a datum removed in this very step (the builder allows it)
+                let i = rng.below(removed_now.len());
+                removed_now.remove(i)
+            } else if !free_names.is_empty() && rng.chance(1, 4) {
                 let i = rng.below(free_names.len());
                 free_names.remove(i)
             } else {
